@@ -9,6 +9,8 @@ import functools
 from typing import Dict, List, Tuple
 
 from vf.specs import (
+    P,
+    disc,
     ANY,
     BOOL,
     FLOAT,
@@ -334,6 +336,63 @@ SER_OBJECTS: Dict[str, Tuple[Sp, str]] = {
     "set(int)": (st(INT), ""),
 }
 
+# ------------------------------------------------------------------------- union pool
+UNSUP = P("unsup")
+DA = obj("DA", F("x", INT))
+DB = obj("DB", F("y", STR, default=V("'d'")))
+DA2 = obj("DA2", F("x", INT))
+DB2 = obj("DB2", F("x", INT), F("z", opt(INT), default=V("None")))
+LA = obj("LA", F("kind", lit("la"), default=V("'la'")), F("x", INT, default=V("0")))
+LB = obj("LB", F("kind", lit("lb", "lb2"), default=V("'lb'")), F("y", STR, default=V("''")))
+INH_DISC_SRC = """
+@discriminator("type")
+@dataclass
+class DBase:
+    pass
+"""
+IA = obj("IA", F("x", INT), bases="DBase")
+IB = obj("IB", F("y", STR, default=V("''")), bases="DBase")
+TU = ann(
+    obj(
+        "TU",
+        F("a", undef(INT), default=V("Undefined")),
+        F("b", undef(STR), default=V("Undefined")),
+        raw_src="class TU(TaggedUnion):\n    a: Tagged[int]\n    b: Tagged[str]\n",
+        tagged=True,
+    ),
+    min_props=1,
+    max_props=1,
+)
+TU_SRC = "from apischema.tagged_unions import TaggedUnion, Tagged"
+UNION_EXTRA: Dict[str, Tuple[Sp, str]] = {
+    "u(S2,FL)": (union(S2, FL), ""),
+    "u(FL,S2)": (union(FL, S2), ""),
+    "u(S2,S3)": (union(S2, S3), ""),
+    "u(S3,S2)": (union(S3, S2), ""),
+    "u(S2,int)": (union(S2, INT), ""),
+    "u(S2,int,none)": (union(S2, INT, NONE), ""),
+    "u(TD,list(int))": (union(TD, lst(INT)), ""),
+    "u(map(int),S2)": (union(mp(INT), S2), ""),
+    "u(list(int),list(str))": (union(lst(INT), lst(STR)), ""),
+    "u(tuple(int,int),list(int))": (union(tup(INT, INT), lst(INT)), ""),
+    "u(str,enum_s)": (union(STR, enum("Es", "u", "v")), ""),
+    "u(enum_s,str)": (union(enum("Es", "u", "v"), STR), ""),
+    "u(int,unsup)": (union(INT, UNSUP), ""),
+    "u(unsup,str,none)": (union(UNSUP, STR, NONE), ""),
+    "u(int,u(str,list(int)))": (union(INT, union(STR, lst(INT))), ""),
+    "u(float,bool)": (union(FLOAT, BOOL), ""),
+    "u(int_rng,int)": (union(ann(INT, min=0, max=10), INT), ""),
+    "u(opt(S2),FL)": (union(opt(S2), FL), ""),
+    "disc(default)": (disc("type", (("DA", "DA"), ("DB", "DB")), DA, DB), ""),
+    "disc(explicit)": (disc("kind", (("a", "DA"), ("b", "DB")), DA, DB, explicit="{'a': DA, 'b': DB}"), ""),
+    "disc(partial)": (disc("kind", (("a", "DA"), ("DB", "DB")), DA, DB, explicit="{'a': DA}"), ""),
+    "disc(same-shape)": (disc("type", (("DA2", "DA2"), ("DB2", "DB2")), DA2, DB2), ""),
+    "disc(literal)": (disc("kind", (("la", "LA"), ("lb", "LB"), ("lb2", "LB")), LA, LB), ""),
+    "disc(inherited)": (disc("type", (("IA", "IA"), ("IB", "IB")), IA, IB, inherited="DBase"), INH_DISC_SRC),
+    "list(disc)": (lst(disc("type", (("DA", "DA"), ("DB", "DB")), DA, DB)), ""),
+    "tagged": (TU, TU_SRC),
+}
+
 QUICK_WRAP = ["int", "float", "str_len", "lit_mix", "enum", "nt", "any"]
 
 
@@ -373,7 +432,22 @@ def _ser_pool():
     return out
 
 
-POOLS = {"data": _data_pool, "ser": _ser_pool}
+@functools.lru_cache()
+def _union_pool():
+    out = {
+        n: (sp, "", "quick")
+        for n, sp in UNIONS.items()
+        if sp.k in ("union", "opt") or (sp.k == "ann" and sp.a[0].k in ("union", "opt"))
+    }
+    for n, (sp, src) in UNION_EXTRA.items():
+        out[n] = (sp, src, "quick")
+    for n in ("opt(int)", "opt(float)", "opt(str_len)", "opt(list(int))", "opt(enum)", "union(any,none)", "opt(lit_mix)"):
+        if n in _data_pool():
+            out[n] = _data_pool()[n]
+    return out
+
+
+POOLS = {"data": _data_pool, "ser": _ser_pool, "union": _union_pool}
 
 
 def get(pool: str, pid: str) -> Tuple[Sp, str]:
